@@ -1,14 +1,36 @@
 use super::{constant::*, ConfigEntity};
 use crate::{base::ResourceType, logging, utils, Error, Result};
 use serde_yaml;
-use std::cell::RefCell;
+use lazy_static::lazy_static;
 use std::env;
 use std::fs::File;
 use std::io::prelude::*;
 use std::path::Path;
+use std::sync::{RwLock, RwLockReadGuard, RwLockWriteGuard};
 
-thread_local! {
-    static GLOBAL_CONFIG : RefCell<ConfigEntity> = RefCell::new(ConfigEntity::new());
+/// The configuration of the process: whichever thread initializes Sentinel, every thread sees the same values.
+struct GlobalConfig(RwLock<ConfigEntity>);
+
+impl GlobalConfig {
+    fn borrow(&self) -> RwLockReadGuard<'_, ConfigEntity> {
+        self.0.read().unwrap()
+    }
+
+    fn borrow_mut(&self) -> RwLockWriteGuard<'_, ConfigEntity> {
+        self.0.write().unwrap()
+    }
+
+    fn with<R>(&self, f: impl FnOnce(&Self) -> R) -> R {
+        f(self)
+    }
+
+    fn try_with<R>(&self, f: impl FnOnce(&Self) -> R) -> std::result::Result<R, std::convert::Infallible> {
+        Ok(f(self))
+    }
+}
+
+lazy_static! {
+    static ref GLOBAL_CONFIG: GlobalConfig = GlobalConfig(RwLock::new(ConfigEntity::new()));
 }
 
 pub fn reset_global_config(entity: ConfigEntity) {
